@@ -28,6 +28,7 @@ func initTypes() {
 type genCfg struct {
 	r        *rand.Rand
 	maxLen   int  // container length scale
+	minLen   int  // containers get at least this many elements (count-corruption streams)
 	bigStr   bool // allow strings straddling allocator thresholds
 	depth    int  // remaining struct nesting budget
 	enum32   bool // keep enum values within int32
@@ -39,6 +40,14 @@ type genCfg struct {
 var strLens = []int{0, 0, 1, 2, 7, 31, 255, 256, 257, 300, 2047, 2048, 2049, 5000}
 
 func (g *genCfg) length() int {
+	n := g.length0()
+	if n < g.minLen {
+		n = g.minLen
+	}
+	return n
+}
+
+func (g *genCfg) length0() int {
 	r := g.r
 	switch r.Intn(10) {
 	case 0:
@@ -139,7 +148,7 @@ func (g *genCfg) gen(v reflect.Value) {
 	case reflect.String:
 		v.SetString(string(g.bytes()))
 	case reflect.Ptr:
-		if g.r.Intn(4) == 0 {
+		if g.r.Intn(4) == 0 && g.minLen == 0 {
 			return // nil
 		}
 		if t.Elem().Kind() == reflect.Struct && g.depth <= 0 {
@@ -159,7 +168,7 @@ func (g *genCfg) gen(v reflect.Value) {
 			}
 			return
 		}
-		if g.r.Intn(6) == 0 {
+		if g.r.Intn(6) == 0 && g.minLen == 0 {
 			return // nil
 		}
 		n := g.length()
@@ -178,7 +187,7 @@ func (g *genCfg) gen(v reflect.Value) {
 		}
 		v.Set(s)
 	case reflect.Map:
-		if g.r.Intn(6) == 0 {
+		if g.r.Intn(6) == 0 && g.minLen == 0 {
 			return
 		}
 		n := g.length()
